@@ -120,6 +120,34 @@ def o3_no_unsaved_loss(steps, cfg, history):
     return out
 
 
+def o4_restore_versions(steps, cfg, history):
+    """C04, third clause: `untrack --restore-versions` writes out every recorded version byte-for-byte before deleting it.
+    Whatever the exit status and whichever copy failed: a version whose object was in the cache before the command is
+    still in the cache afterwards or is in the restore directory with exactly the object's bytes."""
+    from repo_harness import restore_items
+    out = []
+    for st in steps:
+        c = st['cmd']
+        if c['op'] != 'untrack' or not c.get('restore_versions') or st['pre'] is None or st['post'] is None:
+            continue
+        pre, post, written = st['pre'], st['post'], st.get('restored', {})
+        for p, k, d, rel in restore_items(pre):
+            if p not in c['targets'] or rel not in pre.cache or pre.cache[rel]['bytes'] is None:
+                continue
+            want = pre.cache[rel]['bytes']
+            got = written.get((p, k))
+            if got is not None and got != want:
+                out.append((f"step {st['i']} {show_cmd(c)}: version {k} of {p} was written out with other bytes than its cache object {rel}",
+                            {'kind': 'restored-bytes-differ'}))
+            kept = rel in post.cache and post.cache[rel]['bytes'] == want
+            if not kept and got != want:
+                out.append((f"step {st['i']} {show_cmd(c)} (exit {st['rc']}): version {k} of {p} (object {rel}) was deleted without having been written out",
+                            {'kind': 'version-deleted-without-restore'}))
+            if st['rc'] == 0 and got is None:
+                out.append((f"step {st['i']} {show_cmd(c)}: succeeded but version {k} of {p} was not written out", {'kind': 'version-not-restored'}))
+    return out
+
+
 def o5_removal(steps, cfg, history):
     """C05"""
     out = []
@@ -544,6 +572,8 @@ def run_property(chk, pid, oracles, want=('main',), restore=None, nq=280, nt=300
             st_tie['commands'] += 1
             if s['rc'] not in (0, 1): st_tie['panics'] += 1
             chk.count(f"rc:{s['rc']}")
+            if s['cmd'].get('restore_versions'):
+                chk.count(f"untrack-restore:{'copy-fault-injected' if s['cmd'].get('block') else 'no-fault'}:rc={s['rc']}:files-written={min(len(s.get('restored', {})), 4)}")
             if ml is None:
                 k += 1; continue
             d = compare_step(s, ml)
